@@ -210,6 +210,9 @@ var c12Sel = []string{
 	"SELECT k, MEDIAN(v) AS md, STDEV(v) AS sd FROM t GROUP BY k",
 }
 var c12Dml = []string{
+	"DECLARE pick AGGREGATE (c, @k) AS BEGIN VAR @n := 0; VAR @x; WHILE @x IN c DO @n := @n + 1; END WHILE; RETURN @k * 1000 + @n; END; SELECT id, pick(v, id) OVER (PARTITION BY k) FROM t; SELECT k, pick(v, 7) FROM t GROUP BY k",
+	"DECLARE wsum AGGREGATE (c, @w) AS BEGIN VAR @s := 0; VAR @x; WHILE @x IN c DO IF @x IS NOT NULL THEN @s := @s + @x * @w; END IF; END WHILE; RETURN @s; END; SELECT id, wsum(v, id % 3) OVER (PARTITION BY k ORDER BY id) FROM t",
+	"REPLACE INTO t (k, s) USING (k) VALUES ('a', 'ra'), ('b', 'rb'), ('zz', 'new1'), ('c', 'rc'), ('yy', 'new2'); SELECT k, s, COUNT(*) FROM t GROUP BY k, s",
 	"INSERT INTO u (id, k, w) SELECT id + 100000, k, v FROM t WHERE v > 3; SELECT COUNT(*) FROM u",
 	"UPDATE t SET s = k || '-' || v WHERE v % 2 = 0; SELECT COUNT(*) FROM t WHERE s LIKE '%-%'",
 	"UPDATE t SET v = u.w FROM t JOIN u ON t.id = u.id; SELECT SUM(v) FROM t",
